@@ -5,11 +5,14 @@ import (
 	"fmt"
 	"math/rand"
 	"strings"
+	"time"
 
 	"bwverif/bq"
 	"bwverif/cv"
 	"bwverif/gen"
 	"bwverif/rt"
+
+	"github.com/google/badwolf/triple"
 )
 
 // optionalClass is the syntactic class of an OPTIONAL case.
@@ -93,6 +96,27 @@ func c10Run(r *rt.Rec, rng *rand.Rand, n int) {
 			}
 			c := sh.Build(all, rng.Intn(1000), fmt.Sprintf("o%d", k+1))
 			c, _ = gen.SharePos(rng, cs, c, []int{0, 1, 1, 1, 2}[rng.Intn(5)])
+			// now and then the clause also shares a time binding (AT ?t) with an
+			// earlier clause: the anchors then have to denote the same instant,
+			// however they are spelled
+			if rng.Intn(3) == 0 {
+				var earlierAt []string
+				for _, e := range cs {
+					for _, b := range []string{e.PAt, e.OAt} {
+						if b != "" {
+							earlierAt = append(earlierAt, b)
+						}
+					}
+				}
+				if len(earlierAt) > 0 {
+					b1 := earlierAt[rng.Intn(len(earlierAt))]
+					if c.PAt != "" && c.PAt != b1 {
+						c = gen.RenameBinding(c, c.PAt, b1)
+					} else if c.OAt != "" && c.OAt != b1 {
+						c = gen.RenameBinding(c, c.OAt, b1)
+					}
+				}
+			}
 			c.Optional = true
 			cs = append(cs, c)
 		}
@@ -157,6 +181,60 @@ func c10Run(r *rt.Rec, rng *rand.Rand, n int) {
 	}
 }
 
+// c10SharedAnchor: the OPTIONAL clause shares a time binding (AT ?t) with an
+// earlier clause, and the data spells equal instants in several ways: UTC, a
+// fixed offset, and one zone value per triple (as a parser produces them).
+func c10SharedAnchor(r *rt.Rec, rng *rand.Rand, n int) {
+	ctx := context.Background()
+	for i := 0; i < n; i++ {
+		spell := func(t time.Time) time.Time {
+			switch rng.Intn(4) {
+			case 0:
+				return t
+			case 1:
+				return t.In(time.FixedZone("", 3600))
+			case 2:
+				return t.In(time.FixedZone("", 3*3600+27*60))
+			}
+			return t.In(time.FixedZone("", -5*3600))
+		}
+		var ts []*triple.Triple
+		seen := map[string]bool{}
+		for k := 0; k < 8+rng.Intn(8); k++ {
+			s := gen.VNodes[rng.Intn(3)]
+			id := []string{"p", "q"}[rng.Intn(2)]
+			t := gen.MustTriple(s, gen.MustTemp(id, spell(gen.Times[rng.Intn(3)])), triple.NewNodeObject(gen.VNodes[rng.Intn(len(gen.VNodes))]))
+			if rng.Intn(4) == 0 {
+				t = gen.MustTriple(s, gen.MustImm(id), triple.NewPredicateObject(gen.MustTemp("r", spell(gen.Times[rng.Intn(3)]))))
+			}
+			if k := cv.Triple(t); !seen[k] {
+				seen[k] = true
+				ts = append(ts, t)
+			}
+		}
+		data := bq.Data{"?g1": ts}
+		first := bq.Clause{S: bq.B("?s"), P: bq.B("?p"), PAt: "?t", O: bq.B("?o")}
+		if rng.Intn(3) == 0 {
+			first = bq.Clause{S: bq.B("?s"), P: bq.B("?p"), O: bq.B("?o"), OAt: "?t"}
+		}
+		opt := bq.Clause{Optional: true, S: bq.B("?s"), P: bq.B("?p2"), PAt: "?t", O: bq.B("?o2")}
+		switch rng.Intn(4) {
+		case 0:
+			opt.S = bq.B("?s2")
+		case 1:
+			opt = bq.Clause{Optional: true, S: bq.B("?s2"), P: bq.B("?p2"), O: bq.B("?o2"), OAt: "?t"}
+		case 2:
+			opt.P = bq.P(gen.MustImm([]string{"p", "q"}[rng.Intn(2)]))
+			opt.P = bq.B("?p2")
+			opt.O = bq.N(gen.VNodes[rng.Intn(len(gen.VNodes))])
+		}
+		q := gen.SelectAll([]bq.Clause{first, opt}, []string{"?g1"})
+		if rows := compareSelect(ctx, r, q, data, "optional:shared-anchor", []int{0, 2}[rng.Intn(2)]); rows > 0 {
+			r.Nontrivial(q.Text() + "|" + strings.Join(bq.DataStrings(data)["?g1"], ";"))
+		}
+	}
+}
+
 func init() {
 	register(&rt.Check{
 		ID:    "C10",
@@ -171,6 +249,7 @@ func init() {
 				n = 40000
 			}
 			return []rt.Phase{
+				{Name: "shared-anchor", N: 8, Run: func(i int, r *rt.Rec) { c10SharedAnchor(r, gen.Rng(seed, "c10a", i), n/64) }},
 				{Name: "optional", N: 32, Run: func(i int, r *rt.Rec) { c10Run(r, gen.Rng(seed, "c10", i), n/32) }},
 			}
 		},
